@@ -99,6 +99,6 @@ def replay(ctx, path):
         elif n == "SlNew": lines.append("SlNew %s" % (",".join(map(str, e["s"])) or "-"))
         elif n in ("SlBs", "SlDel"): lines.append("%s %d" % (n, e["n"]))
         elif n != "Fault": lines.append(n)
-    t = ctx.drive(drv, lines, "replay")
+    t = ctx.drive(drv, lines + core.fault_line(d), "replay")
     ctx.report(ctx.judge("LineEditTrace", [t]))
     return ctx.finish(rule="replay of " + path)
